@@ -124,7 +124,16 @@ func (d *Deb) Package(info *nfpm.Info, deb io.Writer) (err error) { // nolint: f
 
 	debianBinary := []byte("2.0\n")
 
-	w := ar.NewWriter(deb)
+	// ar.Writer drops the error of the padding byte it writes after an
+	// odd-sized member, so remember the first write error ourselves.
+	ew := &errWriter{w: deb}
+	defer func() {
+		if err == nil {
+			err = ew.err
+		}
+	}()
+
+	w := ar.NewWriter(ew)
 	if err := w.WriteGlobalHeader(); err != nil {
 		return fmt.Errorf("cannot write ar header to deb file: %w", err)
 	}
@@ -313,6 +322,20 @@ func addArFile(w *ar.Writer, name string, body []byte, date time.Time) error {
 	}
 	_, err := w.Write(body)
 	return err
+}
+
+// errWriter remembers the first error returned by the underlying writer.
+type errWriter struct {
+	w   io.Writer
+	err error
+}
+
+func (e *errWriter) Write(p []byte) (int, error) {
+	n, err := e.w.Write(p)
+	if err != nil && e.err == nil {
+		e.err = err
+	}
+	return n, err
 }
 
 type nopCloser struct {
